@@ -395,9 +395,17 @@ def parseSchedLetters (n : Nat) (s : String) : Option (List Nat) :=
   if s == "-" then some [] else
   s.toList.mapM fun ch => let k := ch.toNat - 97; if ch.toNat ≥ 97 && k < n then some k else none
 
-/-- The statement of C19 for an immutable promise (calls: Fulfill of non-nil values, Fail with
-    non-nil errors, Wait), evaluated on the implementation's returns.  `calls` includes the
-    final probing Wait appended by the harness. -/
+/-- The statement of C19 for a promise run, evaluated on the implementation's returns.
+    `calls` includes the final probing Wait appended by the harness (released last, by the drain).
+
+    Every flag combination and every kind of call ("without … deadlock"): a Fulfill, Fail,
+    Recover or Break always returns; and when the probing Wait returned — the promise holds a
+    Result at the end — no other Wait may still be blocked.
+
+    Immutable promise whose calls are Fulfill, Fail, Wait (any values, nil included) and Recover
+    on a *non-recoverable* promise (a refused Recover): exactly one Fulfill/Fail reports success,
+    every call returns when a Fulfill/Fail exists, and every Wait delivers the winner's Result
+    (with relay: possibly with the relayed error). -/
 def promSpec (f : Flags) (calls : List Call) (obs : String) : Option String :=
   if obs.startsWith "crash:" then some ("no_panic " ++ obs)
   else if obs == "hang" then some "no_deadlock hang"
@@ -407,21 +415,30 @@ def promSpec (f : Flags) (calls : List Call) (obs : String) : Option String :=
     | some ret, some t =>
       let rets := ret.splitOn ","
       if rets.length ≠ calls.length then some "unparsable-observation" else
-      let inScope := !f.mutable && calls.all fun c => match c with
-        | .fulfill (some _) => true
-        | .fail _ (some _) => true
-        | .wait => true
-        | _ => false
-      if !inScope then none else
       let cr := calls.zip rets
+      let probeReturned := (rets.getLast?).getD "-" != "-"
+      if cr.any (fun (c, r) => c != .wait && r == "-") then
+        some "no_deadlock: a Fulfill/Fail/Recover/Break never returned"
+      else if probeReturned && rets.any (· == "-") then
+        some "no_deadlock: a Wait is blocked although the promise holds a Result"
+      else
+      let inScope := !f.mutable && calls.all fun c => match c with
+        | .fulfill _ => true
+        | .fail _ _ => true
+        | .wait => true
+        | .recover _ => !f.recoverable
+        | .brk => false
+      if !inScope then none else
       -- the setters that report success
       let wins : List Res := cr.filterMap fun (c, r) => match c with
         | .fulfill v => if r == "ok" then some ⟨v, none⟩ else none
         | .fail v e => if r == "1" then some ⟨v, e⟩ else none
         | _ => none
-      let hasSetter := calls.any fun c => match c with | .wait => false | _ => true
+      let hasSetter := calls.any fun c => match c with | .fulfill _ => true | .fail _ _ => true | _ => false
       let fin := ((t.splitOn "/").getLast?).getD ""
       if wins.length > 1 then some "promise_single_assignment: more than one Fulfill/Fail succeeded"
+      else if cr.any (fun (c, r) => match c with | .recover _ => r != "0" | _ => false) then
+        some "seq_recover: Recover reported success on a non-recoverable promise"
       else if hasSetter && rets.any (· == "-") then some "no_deadlock: a call never returned"
       else if hasSetter && fin.toList.any (· != 'D') then some "no_deadlock: a call never returned"
       else if hasSetter && wins.length == 0 then some "promise_single_assignment: no Fulfill/Fail succeeded"
